@@ -274,9 +274,18 @@ func (g *gl) rangeStmt(x *ast.RangeStmt, c *glCtx, k glK) string {
 		return k(c)
 	}
 	lt := g.leanType(g.typeOf(x.X))
-	if lt != "Bytes" {
+	elemT, acc := "UInt8", "idx"
+	if strings.HasPrefix(lt, "(List ") {
+		elemT, acc = strings.TrimSuffix(strings.TrimPrefix(lt, "(List "), ")"), "lidx"
+	} else if lt != "Bytes" {
 		g.bad(x.Pos(), "range over %s", g.typeOf(x.X))
 		return k(c)
+	}
+	lenOf := func(v string) string {
+		if acc == "idx" {
+			return "(len " + v + ")"
+		}
+		return "(Int.ofNat " + v + ".length)"
 	}
 	var bs []glBind
 	xs := g.expr(x.X, &bs)
@@ -284,7 +293,7 @@ func (g *gl) rangeStmt(x *ast.RangeStmt, c *glCtx, k glK) string {
 	pkg := g.cur.pkg.Types
 	hs := types.NewVar(x.Pos(), pkg, "rng", g.typeOf(x.X))
 	hi := types.NewVar(x.Pos(), pkg, "ri", types.Typ[types.Int])
-	bs = append(bs, glBind{g.vname(hs) + " : Bytes", xs, true}, glBind{g.vname(hi) + " : Int", "(0 : Int)", true})
+	bs = append(bs, glBind{g.vname(hs) + " : " + strings.Trim(lt, "()"), xs, true}, glBind{g.vname(hi) + " : Int", "(0 : Int)", true})
 	c2 := c.with(hs, hi)
 	var keyV, valV *types.Var
 	if id, ok := x.Key.(*ast.Ident); ok && id.Name != "_" {
@@ -339,12 +348,12 @@ func (g *gl) rangeStmt(x *ast.RangeStmt, c *glCtx, k glK) string {
 		inner = inner.with(keyV)
 	}
 	if valV != nil {
-		ib = append(ib, glBind{g.vname(valV) + " : UInt8", fmt.Sprintf("(idx %s %s)", g.vname(hs), g.vname(hi)), false})
+		ib = append(ib, glBind{g.vname(valV) + " : " + elemT, fmt.Sprintf("(%s %s %s)", acc, g.vname(hs), g.vname(hi)), false})
 		inner = inner.with(valV)
 	}
 	bodyT := glWrap(ib, g.block(x.Body, inner, func(_ *glCtx) string { return next }))
-	fmt.Fprintf(g.fb, "def %s (fuel : Nat) %s : X %s :=\n match fuel with\n | 0 => X.fuel\n | fuel + 1 =>\n (if (decide (%s < (len %s))) then\n %s\n else\n %s)\n\n",
-		name, decl, resT, g.vname(hi), g.vname(hs), bodyT, exit)
+	fmt.Fprintf(g.fb, "def %s (fuel : Nat) %s : X %s :=\n match fuel with\n | 0 => X.fuel\n | fuel + 1 =>\n (if (decide (%s < %s)) then\n %s\n else\n %s)\n\n",
+		name, decl, resT, g.vname(hi), lenOf(g.vname(hs)), bodyT, exit)
 	call := callWith(g.vname(hi))
 	if cps {
 		return glWrap(bs, call)
